@@ -2,8 +2,10 @@ use rusty_pc::and::KeepRightCombiner;
 use rusty_pc::*;
 
 use crate::error::ParserError;
+use crate::core::name::identifier;
 use crate::expr::{csv_expressions_first_guarded, expression_pos_p, property};
 use crate::input::StringView;
+use crate::pc_specific::whitespace_ignoring;
 use crate::tokens::equal_sign_ws;
 use crate::*;
 
@@ -14,6 +16,30 @@ use crate::*;
 
 pub fn sub_call_or_assignment_p() -> impl Parser<StringView, Output = Statement, Error = ParserError>
 {
+    OrParser::new(vec![
+        Box::new(let_assignment_p()),
+        Box::new(plain_sub_call_or_assignment_p()),
+    ])
+}
+
+/// The given word followed by whitespace, for words that are not keywords of the tokenizer.
+fn word_ws(word: &'static str) -> impl Parser<StringView, Output = (), Error = ParserError> {
+    identifier()
+        .filter(move |token| token.as_str().eq_ignore_ascii_case(word))
+        .and_keep_right(whitespace_ignoring())
+}
+
+/// `LET name = expression` is the assignment `name = expression`.
+fn let_assignment_p() -> impl Parser<StringView, Output = Statement, Error = ParserError> {
+    word_ws("LET")
+        .and_keep_right(property::parser().map(|p| p.element))
+        .and_keep_left(equal_sign_ws().or_expected("="))
+        .and_tuple(expression_pos_p().or_expected("variable=expression"))
+        .map(|(name_expr, right_side_expr)| Statement::assignment(name_expr, right_side_expr))
+}
+
+fn plain_sub_call_or_assignment_p()
+-> impl Parser<StringView, Output = Statement, Error = ParserError> {
     // TODO review excessive use of clone and boxed
     name_and_opt_eq_sign().then_with_in_context(
         ctx_parser()
